@@ -64,6 +64,7 @@ type SweepDirective struct {
 	Prop  string
 	File  string   // source file (base name) whose functions are swept
 	Funcs []string // or explicit function names
+	Reach bool // also everything reachable by calls from the swept set
 }
 
 // TypeInv is a data-structure invariant: assumed for every value of *Type that a
@@ -386,6 +387,24 @@ func processContractLines(cf *ContractFile, lines []string, lnos []int) error {
 				return fmt.Errorf("line %d: propagatesfile Cxx file.go regexp", no)
 			}
 			cf.PropFiles = append(cf.PropFiles, PropFile{fs[1], fs[2], fs[3]})
+			cur = nil
+			continue
+		case strings.HasPrefix(t, "sweepreach "):
+			// sweepreach Cxx  : also sweep what the swept functions reach by calls
+			// sweepreach Cxx [except f, g, ...]
+			fs := strings.Fields(t)
+			if len(fs) < 2 {
+				return fmt.Errorf("line %d: sweepreach Cxx [except f, g]", no)
+			}
+			d := SweepDirective{Prop: fs[1], Reach: true}
+			if i := strings.Index(t, " except "); i >= 0 {
+				for _, f := range strings.Split(t[i+len(" except "):], ",") {
+					if f = strings.TrimSpace(f); f != "" {
+						d.Funcs = append(d.Funcs, f)
+					}
+				}
+			}
+			cf.Sweeps = append(cf.Sweeps, d)
 			cur = nil
 			continue
 		case strings.HasPrefix(t, "sweepfile "), strings.HasPrefix(t, "sweep "):
